@@ -137,6 +137,28 @@ fn rand_value(rng: &mut Rng, depth: usize, key: bool) -> SValue {
         }
     }
 }
+fn block_text(short: &str, rng: &mut Rng) -> String {
+    if rng.chance(1, 2) {
+        return short.to_string();
+    }
+    let words = |n: usize| (0..n).map(|i| ["alpha", "be", "gamma", "d", "epsilon"][i % 5]).collect::<Vec<_>>().join(" ");
+    match rng.below(14) {
+        0 => "line one\nline two".into(),
+        1 => " leading blank\nsecond".into(),
+        2 => "trailing newline\n".into(),
+        3 => "two trailing\n\n".into(),
+        4 => words(30),
+        5 => format!(" {}", words(30)),
+        6 => "w".repeat(120),
+        7 => "a\n\nb".into(),
+        8 => "  two leading\n  both".into(),
+        9 => format!("first\n  {}\nlast", words(25)),
+        10 => "# not a comment\n- not a list".into(),
+        11 => "key: value\nother: v".into(),
+        12 => format!("{}\n{}", words(20), words(22)),
+        _ => "x  y".into(),
+    }
+}
 fn decorate(v: &SValue, rng: &mut Rng, budget: &mut usize) -> SValue {
     let mut out = SValue { t: v.t.clone(), s: v.s.clone(), xs: v.xs.iter().enumerate().map(|(i, x)| if v.t == "Map" && i % 2 == 0 { x.clone() } else { decorate(x, rng, budget) }).collect() };
     if *budget > 0 && rng.chance(1, 3) {
@@ -145,8 +167,10 @@ fn decorate(v: &SValue, rng: &mut Rng, budget: &mut usize) -> SValue {
         out = match (out.t.as_str(), rng.below(6)) {
             ("Seq" | "Tup", 0 | 1) => SValue::new("FlowSeq", "", vec![out]),
             ("Map" | "Struct", 0 | 1) => SValue::new("FlowMap", "", vec![out]),
-            ("S", 0) => SValue::leaf("Lit", &out.s),
-            ("S", 1) => SValue::leaf("Fold", &out.s),
+            // block-scalar wrappers get block-scalar material half of the time: several lines, leading blanks, trailing
+            // line breaks, lines longer than the folding width with and without leading blanks, a very long word
+            ("S", 0) => SValue::leaf("Lit", &block_text(&out.s, rng)),
+            ("S", 1) => SValue::leaf("Fold", &block_text(&out.s, rng)),
             (_, 2 | 3) => SValue::new("Commented", rng.pick_str(&comments), vec![out]),
             (_, 4) => SValue::new("SpaceAfter", "", vec![out]),
             _ => out,
